@@ -368,6 +368,16 @@ def check_C14(tier, seed):
         if l.startswith("FAIL"):
             failures.append(ProbeFailure(f"C14:attr:{l.split()[1]}", l[:300], prog, "no FAIL line", l[:300]))
 
+    # the cloning API on a struct that is not Clone itself
+    prog = dg.noclone_program()
+    ok, out, err = probes.build_and_run("derive_noclone", prog)
+    evaluations += 1
+    if not ok or "DONE" not in out:
+        first = next((l for l in err.splitlines() if l.startswith("error")), err[:200])
+        failures.append(ProbeFailure("C14:noclone:compile", f"soa_derive(Clone) on a struct that is not Clone itself: the vector's Clone / the cloning API does not compile / run: {first}", prog, "runs", "rejected"))
+    for l in out.splitlines():
+        if l.startswith("FAIL"):
+            failures.append(ProbeFailure(f"C14:noclone:{l.split()[2]}", l[:300], prog, "no FAIL line", l[:300]))
     # a derive addressed to the reference type alone is what the natural-order sort needs (nested fields included)
     prog = dg.ref_ord_program()
     ok, out, err = probes.build_and_run("derive_ref_ord", prog)
